@@ -2,7 +2,7 @@
    and stops at the following space") and the theorem lex_unlex by induction on the token list.  Owner: ext-lexer. *)
 From Coq Require Import List NArith Bool Arith Lia.
 From DV Require Import C06.Model C06.Lexer C06.LayoutProofs C06.StrProofs.
-From DV Require C10.Model C10.Layout C10.Trim.
+From DV Require C10.Model C10.Layout C10.Shape C10.Trim.
 Import ListNotations.
 
 Local Open Scope N_scope.
@@ -12,14 +12,14 @@ Local Open Scope N_scope.
 Lemma name_part_ranges : forall c, NM.is_name_part c = true ->
   (48 <= c <= 57) \/ c = 63 \/ (65 <= c <= 90) \/ c = 95 \/ (97 <= c <= 122) \/ 183 <= c.
 Proof.
-  intros c H. unfold NM.is_name_part, NM.is_name_start, NM.is_digit, NM.between in H.
+  intros c H. apply C10.Shape.name_part_is_orig in H. unfold NM.is_name_part_orig, NM.is_name_start_orig, NM.is_digit, NM.between in H.
   rewrite ?orb_true_iff, ?andb_true_iff, ?N.leb_le, ?N.eqb_eq in H. lia.
 Qed.
 
 Lemma name_start_ranges : forall c, NM.is_name_start c = true ->
   c = 63 \/ (65 <= c <= 90) \/ c = 95 \/ (97 <= c <= 122) \/ 192 <= c.
 Proof.
-  intros c H. unfold NM.is_name_start, NM.between in H.
+  intros c H. unfold NM.is_name_start in H. apply andb_true_iff in H. destruct H as [H _]. unfold NM.is_name_start_orig, NM.between in H.
   rewrite ?orb_true_iff, ?andb_true_iff, ?N.leb_le, ?N.eqb_eq in H. lia.
 Qed.
 
@@ -270,40 +270,31 @@ Definition inv2 (inp : str) (s : NM.mstate) (pos : nat) (a : NM.acc) : Prop :=
   | _ => True
   end.
 
-Lemma ch_clean : forall inp pos, Forall (fun c => c <> 5760%N) inp -> NM.ch inp pos <> 5760%N.
+(* a name part character, an additional symbol: not trimmed by str::trim (no name character has the property White_Space) *)
+Lemma next_name_nws : forall inp pos, NM.next_is NM.is_name_part inp pos = true -> nws (NM.ch inp (S pos)).
 Proof.
-  intros inp pos H. unfold NM.ch. destruct (nth_in_or_default pos inp 0%N) as [Hi|He].
-  - rewrite Forall_forall in H. exact (H _ Hi).
-  - rewrite He. discriminate.
-Qed.
-
-(* a name part character other than U+1680, an additional symbol: not trimmed by str::trim *)
-Lemma next_name_nws : forall inp pos, Forall (fun c => c <> 5760%N) inp -> NM.next_is NM.is_name_part inp pos = true -> nws (NM.ch inp (S pos)).
-Proof.
-  intros inp pos Hin H. destruct (DV.C10.Layout.next_is_true _ _ _ H) as [_ Hp]. unfold nws.
-  destruct (NM.is_white_space (NM.ch inp (S pos))) eqn:E; [|reflexivity].
-  exfalso. exact (ch_clean inp (S pos) Hin (DV.C10.Trim.name_part_white_space _ Hp E)).
+  intros inp pos H. destruct (DV.C10.Layout.next_is_true _ _ _ H) as [_ Hp]. exact (DV.C10.Trim.name_part_not_white_space _ Hp).
 Qed.
 
 Lemma next_sym_nws : forall inp pos, NM.next_is NM.is_add_sym inp pos = true -> nws (NM.ch inp (S pos)).
 Proof. intros inp pos H. destruct (DV.C10.Layout.next_is_true _ _ _ H) as [_ Hp]. exact (DV.C10.Trim.add_sym_not_white_space _ Hp). Qed.
 
-Lemma step_inv2 : forall inp s pos a s' pos' a', Forall (fun c => c <> 5760%N) inp ->
+Lemma step_inv2 : forall inp s pos a s' pos' a',
   inv2 inp s pos a -> NM.step inp s pos a = Some (s', pos', a') -> inv2 inp s' pos' a'.
 Proof.
-  intros inp s pos a s' pos' a' Hin [HP [HC HS]] H. unfold NM.step in H. unfold inv2.
+  intros inp s pos a s' pos' a' [HP [HC HS]] H. unfold NM.step in H. unfold inv2.
   assert (Hrev : forall l, l <> [] -> Forall nws l -> good_part (rev l)).
   { intros l Hl Hf. split; [intro E; apply Hl; rewrite <- (rev_involutive l), E; reflexivity|].
     apply Forall_forall. intros c Hc. rewrite Forall_forall in Hf. apply Hf. apply in_rev. exact Hc. }
   destruct s.
   - destruct (NM.next_is NM.is_name_part inp pos) eqn:E; inversion H; subst; cbn [NM.a_parts NM.a_cps NM.a_cur].
-    + split; [exact HP|]. split; [constructor; [apply next_name_nws; [exact Hin|exact E]|exact HC]|discriminate].
+    + split; [exact HP|]. split; [constructor; [apply next_name_nws; exact E|exact HC]|discriminate].
     + split; [constructor; [apply Hrev; assumption|exact HP]|]. split; [constructor|exact I].
   - destruct (NM.next_is NM.is_name_part inp pos) eqn:E; [inversion H; subst; split; [exact HP|split; [exact HC|right; exact E]]|].
     destruct (NM.next_is NM.is_add_sym inp pos); [inversion H; subst; split; [exact HP|split; [exact HC|exact I]]|].
     destruct (NM.next_is NM.is_ws inp pos); [inversion H; subst; split; [exact HP|split; [exact HC|exact I]]|discriminate H].
   - destruct (NM.next_is NM.is_name_part inp pos) eqn:E; inversion H; subst; cbn [NM.a_parts NM.a_cps NM.a_cur].
-    + split; [exact HP|]. split; [constructor; [apply next_name_nws; [exact Hin|exact E]|exact HC]|left; discriminate].
+    + split; [exact HP|]. split; [constructor; [apply next_name_nws; exact E|exact HC]|left; discriminate].
     + destruct HS as [HS|HS]; [|discriminate HS].
       split; [constructor; [apply Hrev; assumption|exact HP]|]. split; [constructor|exact I].
   - destruct (NM.next_is NM.is_add_sym inp pos) eqn:E; inversion H; subst; cbn [NM.a_parts NM.a_cps NM.a_cur].
@@ -312,27 +303,23 @@ Proof.
   - destruct (NM.next_is NM.is_ws inp pos); inversion H; subst; split; try exact HP; split; try exact HC; exact I.
 Qed.
 
-Lemma machine_inv2 : forall f inp s pos a s' pos' a', Forall (fun c => c <> 5760%N) inp ->
+Lemma machine_inv2 : forall f inp s pos a s' pos' a',
   inv2 inp s pos a -> NM.machine f inp s pos a = (s', pos', a') -> inv2 inp s' pos' a'.
 Proof.
-  induction f as [|f IH]; intros inp s pos a s' pos' a' Hin Hi H.
+  induction f as [|f IH]; intros inp s pos a s' pos' a' Hi H.
   - cbn [NM.machine] in H. inversion H; subst. exact Hi.
   - rewrite machine_S in H. destruct (NM.step inp s pos a) as [[[s1 p1] a1]|] eqn:E.
-    + eapply IH; [exact Hin|eapply step_inv2; eauto|exact H].
+    + eapply IH; [eapply step_inv2; eauto|exact H].
     + inversion H; subst. exact Hi.
 Qed.
 
-Lemma name_clean_nws : forall c, NM.is_name_part c = true -> c <> 5760%N -> nws c.
-Proof.
-  intros c H1 H2. unfold nws. destruct (NM.is_white_space c) eqn:E; [|reflexivity].
-  exfalso. exact (H2 (DV.C10.Trim.name_part_white_space _ H1 E)).
-Qed.
+Lemma name_nws : forall c, NM.is_name_part c = true -> nws c.
+Proof. exact DV.C10.Trim.name_part_not_white_space. Qed.
 
 Lemma collect_word : forall x w rest, NM.is_name_part x = true -> forallb NM.is_name_part w = true -> stops_name rest = true ->
-  Forall (fun c => c <> 5760%N) (x :: w ++ rest) ->
   exists ps cs e, NM.collect (x :: w ++ rest) 0 = ((x :: w) :: ps, length w :: cs, e) /\ Forall good_part ((x :: w) :: ps).
 Proof.
-  intros x w rest Hx0 Hw Hr Hclean. unfold NM.collect.
+  intros x w rest Hx0 Hw Hr. unfold NM.collect.
   change (NM.ch (x :: w ++ rest) 0) with x. change [x] with (rev (x :: [])).
   set (inp := x :: w ++ rest).
   assert (Hfuel : exists fuel, 4 * S (length inp) = S (length w) + fuel).
@@ -344,9 +331,9 @@ Proof.
   destruct (machine_extends _ _ _ _ _ _ _ _ E) as [lp [lc [H1 [H2 H3]]]]. cbn [NM.a_parts NM.a_cps] in H1, H2.
   assert (Hi : inv2 (x :: w ++ rest) NM.S2 (length w) {| NM.a_parts := [x :: w]; NM.a_cps := [length w]; NM.a_cur := [] |}).
   { split; [|split; [constructor|exact I]]. cbn [NM.a_parts]. constructor; [|constructor]. split; [discriminate|].
-    inversion Hclean as [|? ? Hx Hrest]; subst. constructor; [exact (name_clean_nws x Hx0 Hx)|]. apply Forall_app in Hrest. destruct Hrest as [Hcw _].
-    rewrite forallb_forall in Hw. rewrite Forall_forall in *. intros c Hc. apply name_clean_nws; [apply Hw; exact Hc|apply Hcw; exact Hc]. }
-  destruct (machine_inv2 _ _ _ _ _ _ _ _ Hclean Hi E) as [HP _].
+    constructor; [exact (name_nws x Hx0)|].
+    rewrite forallb_forall in Hw. rewrite Forall_forall. intros c Hc. apply name_nws. apply Hw. exact Hc. }
+  destruct (machine_inv2 _ _ _ _ _ _ _ _ Hi E) as [HP _].
   exists (rev lp), (rev lc), (S p). rewrite H1, H2, !rev_app_distr. cbn [rev app]. split; [reflexivity|].
   rewrite H1 in HP. apply Forall_app in HP. destruct HP as [HP1 HP2]. constructor; [inversion HP2; assumption|].
   apply Forall_rev. exact HP1.
@@ -427,6 +414,9 @@ Proof.
   rewrite H1, H2. apply IH; [lia|]. intros pc Hp1 Hp2. apply H; lia.
 Qed.
 
+Lemma set_tillin_idle : forall fl, f_tillin fl = false -> set_tillin false fl = fl.
+Proof. intros [u b t ti] H. cbn [f_tillin] in H. subst ti. reflexivity. Qed.
+
 Lemma skipn_exact : forall (l r : str), skipn (length l) (l ++ r) = r.
 Proof. induction l as [|x l IH]; intros r; [reflexivity|]. cbn [length app skipn]. apply IH. Qed.
 
@@ -439,7 +429,7 @@ Qed.
    a type is expected, a built-in type name that no longer built-in type name begins with *)
 Lemma name_token_word : forall keys fl x w rest,
   forallb (forallb plain_char) keys = true -> forallb plain_char (x :: w) = true ->
-  Forall (fun c => c <> 5760%N) (x :: w ++ 32%N :: rest) -> f_tillin fl = false ->
+  f_tillin fl = false ->
   (forall c tail, plain_char c = false -> (f_type fl && is_builtin_type ((x :: w) ++ c :: tail)) = false) ->
   NM.mem (x :: w) keys || (f_type fl && is_builtin_type (x :: w)) = true ->
   name_token keys fl (x :: w ++ 32%N :: rest) =
@@ -447,17 +437,17 @@ Lemma name_token_word : forall keys fl x w rest,
   else if NM.mem (x :: w) keys then RTok (LName (x :: w)) fl (32%N :: rest)
   else RTok (LType (x :: w)) (set_type false fl) (32%N :: rest).
 Proof.
-  intros keys fl x w rest Hkeys Hplain Hclean Htill Hbuilt Hsome.
+  intros keys fl x w rest Hkeys Hplain Htill Hbuilt Hsome.
   assert (Hw : forallb NM.is_name_part w = true).
   { cbn [forallb] in Hplain. apply andb_true_iff in Hplain. destruct Hplain as [_ Hp]. rewrite forallb_forall in *.
     intros c Hc. specialize (Hp c Hc). unfold plain_char in Hp. apply andb_true_iff in Hp. tauto. }
   assert (Hx0 : NM.is_name_part x = true).
   { cbn [forallb] in Hplain. apply andb_true_iff in Hplain. destruct Hplain as [Hp _]. unfold plain_char in Hp. apply andb_true_iff in Hp. tauto. }
-  destruct (collect_word x w (32%N :: rest) Hx0 Hw eq_refl Hclean) as [ps [cs [e [Hc Hg]]]].
+  destruct (collect_word x w (32%N :: rest) Hx0 Hw eq_refl) as [ps [cs [e [Hc Hg]]]].
   unfold name_token. rewrite Hc. cbv beta iota.
   assert (Hskip : skipn (S (length w)) (x :: w ++ 32%N :: rest) = 32%N :: rest) by (cbn [skipn]; apply skipn_exact).
   destruct (NM.str_eqb (x :: w) NM.str_item) eqn:Eitem.
-  - cbn [nth]. rewrite Hskip. reflexivity.
+  - cbn [nth]. rewrite Hskip. rewrite (set_tillin_idle fl Htill). reflexivity.
   - rewrite Htill.
     assert (Hone : forall p : str, p = x :: w -> name_of [p] = x :: w).
     { intros p ->. unfold name_of, NM.name_new. cbn [map]. inversion Hg as [|? ? [_ Hx] _]; subst. rewrite (DV.C10.Trim.trim_id _ Hx). apply name_new_one. }
@@ -546,22 +536,15 @@ Proof.
   symmetry. unfold NM.is_digit, NM.between. apply andb_false_iff. right. apply N.leb_gt. lia.
 Qed.
 
-Lemma clean_plain : forall w, forallb plain_char w = true -> Forall (fun c => c <> 5760) w.
-Proof.
-  intros w H. apply Forall_forall. intros c Hc. rewrite forallb_forall in H. destruct (plain_facts c (H c Hc)) as [Hws _].
-  intro E. subst c. discriminate Hws.
-Qed.
-
 Lemma mem_in : forall n keys, NM.mem n keys = true -> In n keys.
 Proof.
   intros n keys H. unfold NM.mem in H. apply existsb_exists in H. destruct H as [k [Hk E]]. apply str_eqb_eq in E. subst k. exact Hk.
 Qed.
 
 Lemma scan_name : forall keys fl n rest, keys_ok keys = true -> tok_ok keys fl (LName n) = true -> f_tillin fl = false ->
-  Forall (fun c => c <> 5760) rest ->
   scan keys fl (n ++ 32 :: rest) = RTok (LName n) (clr_unary fl) (32 :: rest).
 Proof.
-  intros keys fl n rest Hkeys Hok Htill Hclean. cbn [tok_ok] in Hok. apply andb_true_iff in Hok. destruct Hok as [Hmem Hty].
+  intros keys fl n rest Hkeys Hok Htill. cbn [tok_ok] in Hok. apply andb_true_iff in Hok. destruct Hok as [Hmem Hty].
   apply negb_true_iff in Hty. pose proof (keys_plain keys Hkeys) as Hkp.
   assert (Hword : word_ok n = true).
   { unfold keys_ok in Hkeys. rewrite !andb_true_iff in Hkeys. destruct Hkeys as [[Hk _] _]. rewrite forallb_forall in Hk. apply Hk. apply mem_in. exact Hmem. }
@@ -570,8 +553,6 @@ Proof.
   cbn [app]. rewrite scan_word by assumption.
   rewrite name_token_word; try assumption.
   - destruct (NM.str_eqb (x :: w) NM.str_item) eqn:E; [apply str_eqb_eq in E; rewrite E; reflexivity|]. rewrite Hmem. reflexivity.
-  - pose proof (clean_plain _ Hplain) as Hc. inversion Hc; subst. constructor; [assumption|]. apply Forall_app. split; [assumption|].
-    constructor; [discriminate|exact Hclean].
   - intros c tail _. destruct fl as [u b ty ti]; cbv [f_type clr_unary] in Hty |- *. rewrite Hty. reflexivity.
   - rewrite Hmem. reflexivity.
 Qed.
@@ -588,10 +569,9 @@ Proof.
 Qed.
 
 Lemma scan_type : forall keys fl n rest, keys_ok keys = true -> tok_ok keys fl (LType n) = true -> f_tillin fl = false ->
-  Forall (fun c => c <> 5760) rest ->
   scan keys fl (n ++ 32 :: rest) = RTok (LType n) (set_type false (clr_unary fl)) (32 :: rest).
 Proof.
-  intros keys fl n rest Hkeys Hok Htill Hclean. cbn [tok_ok] in Hok. apply andb_true_iff in Hok. destruct Hok as [Hty Hmem].
+  intros keys fl n rest Hkeys Hok Htill. cbn [tok_ok] in Hok. apply andb_true_iff in Hok. destruct Hok as [Hty Hmem].
   destruct (type_words_facts n Hmem) as [Hword [Hb [Hitem Hlong]]]. pose proof (keys_plain keys Hkeys) as Hkp.
   assert (Hnk : NM.mem n keys = false).
   { destruct (NM.mem n keys) eqn:E; [|reflexivity]. apply mem_in in E. unfold keys_ok in Hkeys. rewrite !andb_true_iff in Hkeys.
@@ -601,8 +581,6 @@ Proof.
   cbn [app]. rewrite scan_word by assumption.
   rewrite name_token_word; try assumption.
   - rewrite Hitem, Hnk. reflexivity.
-  - pose proof (clean_plain _ Hplain) as Hc. inversion Hc; subst. constructor; [assumption|]. apply Forall_app. split; [assumption|].
-    constructor; [discriminate|exact Hclean].
   - intros c tail _. rewrite Hlong. apply andb_false_r.
   - rewrite Hnk. destruct fl as [u b ty ti]; cbv [f_type clr_unary] in Hty |- *. rewrite Hty, Hb. reflexivity.
 Qed.
@@ -610,10 +588,9 @@ Qed.
 (* ------------------------------------------------------------------ every printable token *)
 
 Lemma scan_tok : forall keys fl t rest, keys_ok keys = true -> tok_ok keys fl t = true -> f_tillin fl = false ->
-  Forall (fun c => c <> 5760) rest ->
   scan keys fl (tok_text t ++ 32 :: rest) = RTok t (after_tok fl t) (32 :: rest).
 Proof.
-  intros keys fl t rest Hkeys Hok Htill Hclean. destruct t as [k|s|b| |b a|s|n|n|n].
+  intros keys fl t rest Hkeys Hok Htill. destruct t as [k|s|b| |b a|s|n|n|n].
   - apply scan_kw with (keys := keys). exact Hok.
   - apply scan_sym.
   - apply scan_bool.
@@ -678,85 +655,10 @@ Proof.
     cbn [tok_text app]. apply token_start_first; assumption.
 Qed.
 
-(* ------------------------------------------------------------------ the printed text never contains U+1680 *)
+(* ------------------------------------------------------------------ the layouts between tokens *)
 
-Definition clean (l : str) : Prop := Forall (fun c => c <> 5760) l.
-
-Lemma hexchar_clean : forall u v, hexchar u (N.land v 15) <> 5760.
-Proof.
-  intros u v. pose proof (nib v). unfold hexchar. destruct (N.land v 15 <? 10); [lia|]. destruct u; lia.
-Qed.
-
-Lemma hex4_clean : forall u v, clean (hex4 u v).
-Proof. intros. unfold hex4. repeat constructor; apply hexchar_clean. Qed.
-
-Lemma hex6_clean : forall u v, clean (hex6 u v).
-Proof. intros. unfold hex6. constructor; [apply hexchar_clean|]. constructor; [apply hexchar_clean|]. apply hex4_clean. Qed.
-
-Lemma dflt_clean : forall c, clean (if c <? 65536 then 92 :: 117 :: hex4 false c else 92 :: 85 :: hex6 false c).
-Proof.
-  intros c. destruct (c <? 65536); (constructor; [discriminate|]); (constructor; [discriminate|]); [apply hex4_clean|apply hex6_clean].
-Qed.
-
-Lemma escape_clean : forall s, clean (escape (str_spellings s) s).
-Proof.
-  induction s as [|c r IH]; [constructor|]. cbn [str_spellings map escape]. apply Forall_app. split; [|exact IH].
-  destruct (is_ws c) eqn:E; unfold spell.
-  - destruct (c <? 65536) eqn:E2; (constructor; [discriminate|]); (constructor; [discriminate|]); [apply hex4_clean|apply hex6_clean].
-  - destruct (raw_ok c); [|apply dflt_clean]. constructor; [|constructor]. intro H. subst c. discriminate E.
-Qed.
-
-Lemma tok_clean : forall keys fl t, keys_ok keys = true -> tok_ok keys fl t = true -> clean (tok_text t).
-Proof.
-  intros keys fl t Hkeys Hok. destruct t as [k|s|b| |b a|s|n|n|n].
-  - destruct k; repeat constructor; discriminate.
-  - destruct s; repeat constructor; discriminate.
-  - destruct b; repeat constructor; discriminate.
-  - repeat constructor; discriminate.
-  - cbn [tok_ok] in Hok. assert (Hd : forall d, digits_ok d = true -> clean d).
-    { intros d H. apply Forall_forall. intros c Hc. unfold digits_ok in H. rewrite forallb_forall in H. pose proof (digit_range c (H c Hc)). lia. }
-    destruct b as [|c b]; [discriminate Hok|]. apply andb_true_iff in Hok. destruct Hok as [Hb Ha].
-    destruct a as [|a0 a]; cbn [tok_text]; [apply Hd; exact Hb|]. apply Forall_app. split; [apply Hd; exact Hb|].
-    constructor; [discriminate|apply Hd; exact Ha].
-  - cbn [tok_text]. constructor; [discriminate|]. apply Forall_app. split; [apply escape_clean|repeat constructor; discriminate].
-  - apply clean_plain. apply word_ok_plain. eapply tok_word; eauto.
-  - discriminate Hok.
-  - apply clean_plain. apply word_ok_plain. eapply tok_word; eauto.
-Qed.
-
-Definition piece_clean (p : piece) : bool :=
-  match p with
-  | PWs c => negb (c =? 5760)
-  | PBlock b | PLine b => forallb (fun c => negb (c =? 5760)) b
-  end.
-
-Definition gap_ok (g : list piece) : bool := forallb piece_ok g && forallb piece_clean g.
-
-Lemma forallb_clean : forall b, forallb (fun c => negb (c =? 5760)) b = true -> clean b.
-Proof.
-  intros b H. apply Forall_forall. intros c Hc. rewrite forallb_forall in H. specialize (H c Hc). apply negb_true_iff in H. apply N.eqb_neq. exact H.
-Qed.
-
-Lemma layout_clean : forall ps, forallb piece_clean ps = true -> clean (render_layout ps).
-Proof.
-  induction ps as [|p ps IH]; intros H; [constructor|]. cbn [forallb] in H. apply andb_true_iff in H. destruct H as [Hp Hps].
-  unfold render_layout. cbn [flat_map]. apply Forall_app. split; [|apply IH; exact Hps].
-  destruct p as [c|b|b]; cbn [piece_clean] in Hp; cbn [render_piece].
-  - constructor; [|constructor]. apply negb_true_iff in Hp. apply N.eqb_neq. exact Hp.
-  - constructor; [discriminate|]. constructor; [discriminate|]. apply Forall_app. split; [apply forallb_clean; exact Hp|repeat constructor; discriminate].
-  - constructor; [discriminate|]. constructor; [discriminate|]. apply Forall_app. split; [apply forallb_clean; exact Hp|repeat constructor; discriminate].
-Qed.
-
-Lemma unlex_lay_clean : forall keys, keys_ok keys = true -> forall ts gaps fl, printable_from keys fl ts = true ->
-  forallb gap_ok gaps = true -> clean (unlex_lay gaps ts).
-Proof.
-  intros keys Hkeys. induction ts as [|t r IH]; intros gaps fl Hp Hg; [constructor|].
-  cbn [printable_from] in Hp. apply andb_true_iff in Hp. destruct Hp as [Ht Hr]. cbn [unlex_lay].
-  apply Forall_app. split; [eapply tok_clean; eauto|]. constructor; [discriminate|]. apply Forall_app. split.
-  - destruct gaps as [|g gaps]; [constructor|]. cbn [hd]. cbn [forallb] in Hg. apply andb_true_iff in Hg. destruct Hg as [Hg _].
-    unfold gap_ok in Hg. apply andb_true_iff in Hg. apply layout_clean. tauto.
-  - apply (IH (tl gaps) (tok_flags fl t) Hr). destruct gaps as [|g gaps]; [reflexivity|]. cbn [forallb] in Hg. apply andb_true_iff in Hg. cbn [tl]. tauto.
-Qed.
+(* any pieces of the layout grammar (a restriction to pieces without U+1680 was needed while that character was a name character too) *)
+Definition gap_ok (g : list piece) : bool := forallb piece_ok g.
 
 (* ------------------------------------------------------------------ the theorem *)
 
@@ -788,13 +690,12 @@ Proof.
     rewrite next_token_lay by (exact Hps || (eapply tok_start; eauto)).
     assert (Hgs : gap_ok (hd [] gaps) = true /\ forallb gap_ok (tl gaps) = true).
     { destruct gaps as [|g gaps]; [split; reflexivity|]. cbn [forallb] in Hg. apply andb_true_iff in Hg. exact Hg. }
-    destruct Hgs as [Hg1 Hg2]. unfold gap_ok in Hg1. apply andb_true_iff in Hg1. destruct Hg1 as [Hg1 Hg1c].
+    destruct Hgs as [Hg1 Hg2]. unfold gap_ok in Hg1.
     rewrite (scan_tok keys fl t _ Hkeys Ht Htill).
-    + rewrite (policy_ok keys fl t Ht).
-      change (32%N :: render_layout (hd [] gaps) ++ unlex_lay (tl gaps) r) with (render_layout (PWs 32 :: hd [] gaps) ++ unlex_lay (tl gaps) r).
-      rewrite (IH (tl gaps) (PWs 32 :: hd [] gaps) (tok_flags fl t) f); try assumption; try lia; try reflexivity.
-      rewrite tok_flags_tillin. exact Htill.
-    + apply Forall_app. split; [apply layout_clean; exact Hg1c|]. eapply unlex_lay_clean; eauto.
+    rewrite (policy_ok keys fl t Ht).
+    change (32%N :: render_layout (hd [] gaps) ++ unlex_lay (tl gaps) r) with (render_layout (PWs 32 :: hd [] gaps) ++ unlex_lay (tl gaps) r).
+    rewrite (IH (tl gaps) (PWs 32 :: hd [] gaps) (tok_flags fl t) f); try assumption; try lia; try reflexivity.
+    rewrite tok_flags_tillin. exact Htill.
 Qed.
 
 (* one space after every token *)
